@@ -19,6 +19,7 @@ import PdProps.C04Clean
 import PdProps.C04Inh
 import PdProps.C04ReexpC
 import PdProps.C04ReexpE
+import PdProps.C04ReexpF
 
 namespace Names
 open Registry
@@ -804,6 +805,13 @@ theorem resolve_sound_reexport_of (proj : Project) (rank : List Nat) (hro : Rx.R
       rw [hident] at h1; injection h1 with h1
       rw [← h1, ← hid, ← hsv]
       exact Rx.locIdent_final wf (Rx.all_moved hI hproc) hS'
+
+/-- **soundness with re-export moves**, the registry obligation discharged (`Rx.reparent_ok`, PdProps/C04ReexpF.lean);
+what is left as a hypothesis is `Rx.SubLookup`: the implicit submodule lookup of `from <package> import n` enters no
+module of too high a rank -/
+theorem resolve_sound_reexport_partial (proj : Project) (rank : List Nat) (hsl : Rx.SubLookup proj rank) :
+    ResolveSoundReexport proj rank :=
+  resolve_sound_reexport_of proj rank Rx.reparent_ok hsl
 
 /-- the definer's body: a class with a method and a nested class, and a function -/
 def rxDefBody : List Stmt := [.classDef ['K'] [] [.funcDef ['g'], .classDef ['N'] [] [.assign ['v'] 1]], .funcDef ['f']]
